@@ -16,6 +16,9 @@ theorem tie_h_log_openFile : Extracted.Log.h_log_openFile = Canon.Log.h_log_open
 theorem tie_h_log_cmdSetStdout : Extracted.Log.h_log_cmdSetStdout = Canon.Log.h_log_cmdSetStdout := by decide +kernel
 theorem tie_h_log_cmdSetStderr : Extracted.Log.h_log_cmdSetStderr = Canon.Log.h_log_cmdSetStderr := by decide +kernel
 theorem tie_h_log_cmdRun : Extracted.Log.h_log_cmdRun = Canon.Log.h_log_cmdRun := by decide +kernel
+theorem tie_h_rest_log_dag_scheduler_node_go : Extracted.Log.h_rest_log_dag_scheduler_node_go = Canon.Log.h_rest_log_dag_scheduler_node_go := by decide +kernel
+theorem tie_h_rest_log_dag_executor_command_go : Extracted.Log.h_rest_log_dag_executor_command_go = Canon.Log.h_rest_log_dag_executor_command_go := by decide +kernel
+theorem tie_h_rest_log_util_utils_go : Extracted.Log.h_rest_log_util_utils_go = Canon.Log.h_rest_log_util_utils_go := by decide +kernel
 
 #print axioms tie_h_log_setup
 #print axioms tie_h_log_setupLog
@@ -30,5 +33,8 @@ theorem tie_h_log_cmdRun : Extracted.Log.h_log_cmdRun = Canon.Log.h_log_cmdRun :
 #print axioms tie_h_log_cmdSetStdout
 #print axioms tie_h_log_cmdSetStderr
 #print axioms tie_h_log_cmdRun
+#print axioms tie_h_rest_log_dag_scheduler_node_go
+#print axioms tie_h_rest_log_dag_executor_command_go
+#print axioms tie_h_rest_log_util_utils_go
 
 end BdModel.Tie.Log
